@@ -186,7 +186,42 @@ def job_pearson(res, n):
         elif c == z3.sat: cex(); return
         else: res.inc(f'pearson n={n}: {nm} identity unknown')
 
-JOBFNS = {'sort': job_sort, 'median': job_median, 'medflt': job_medflt, 'rank': job_rank, 'pearson': job_pearson}
+def job_rank_large(res, n, typ):
+    """ground obligations at lengths where integer accumulators of rank statistics reach 2^31 (sum d^2 = n(n^2-1)/3 > 2^31 from n = 1861; n(n-1)/2 pairs): perfectly reversed, identical and interleaved orders,
+    executed through the interpreted IR with every signed-overflow / bounds obligation active"""
+    mod, so = load(HARNESS)
+    base = [0.25 * i - 3.0 for i in range(n)]
+    for nm, yv in (('reversed', base[::-1]), ('identical', list(base)), ('interleaved', base[1::2] + base[0::2])):
+        m = Machine(mod, max_steps=400_000_000); spec = [('pf64', base), ('pf64', yv), ('i32', n), ('i32', typ)]
+        tn = ['pearson', 'spearman', 'kendall'][typ]
+        try: r, outs, _ = sym_call(m, 'h_corr', spec, 'f64')
+        except UB as e:
+            res.absorb(m); confirm(res, PID, HARNESS, 'h_corr', spec, 'f64', 'corr', ORACLES, f'corr:{tn}:large-n', f'{tn} n={n} {nm} order: {str(e)[:200]}', san=True); continue
+        except (Budget, Throw) as e: res.absorb(m); res.inc(f'{tn} n={n} {nm}: {type(e).__name__}'); continue
+        res.absorb(m)
+        rx = {v: i for i, v in enumerate(sorted(base))}; d2 = sum((rx[a] - rx[b]) ** 2 for a, b in zip(base, yv))
+        if typ == 1: exp = 1 - Fraction(6 * d2, n * (n * n - 1))
+        else:
+            perm = [rx[b] for b in yv]; inv = 0      # x ascending: concordant pairs = non-inversions of perm (merge count)
+            def ms(a):
+                nonlocal inv
+                if len(a) < 2: return a
+                h = len(a) // 2; l = ms(a[:h]); r_ = ms(a[h:]); o = []; i = j = 0
+                while i < len(l) and j < len(r_):
+                    if l[i] <= r_[j]: o.append(l[i]); i += 1
+                    else: o.append(r_[j]); j += 1; inv += len(l) - i
+                return o + l[i:] + r_[j:]
+            ms(perm); tot = n * (n - 1) // 2; exp = Fraction(tot - 2 * inv, tot)
+        ok = abs(r - float(exp)) <= 1e-9 and not m.ub_found
+        sol = z3.Solver(); sol.add(z3.Not(z3.BoolVal(bool(ok))))
+        if timed_check(sol, res) == z3.unsat: res.ob(True, 'ground', f'{tn} n={n} {nm} order: {float(exp)!r}, no integer overflow on the way')
+        else: confirm(res, PID, HARNESS, 'h_corr', spec, 'f64', 'corr_large', ORACLES, f'corr:{tn}:large-n', f'{tn} n={n} {nm} order: got {r!r}, definition gives {float(exp)!r}' + (f'; UB {m.ub_found[:1]}' if m.ub_found else ''), extra={'exp': float(exp)})
+def o_corr_large(spec, r, extra):
+    if r['status'] != 'ok': return True, f"corr: {r['status']} {r.get('stderr', '')[-200:]}"
+    return abs(r['ret'] - extra['exp']) > 1e-9, f"corr(n={spec[2][1]}, {['pearson', 'spearman', 'kendall'][spec[3][1]]}) = {r['ret']!r}, definition gives {extra['exp']!r}"
+ORACLES['corr_large'] = o_corr_large
+
+JOBFNS = {'rank_large': job_rank_large, 'sort': job_sort, 'median': job_median, 'medflt': job_medflt, 'rank': job_rank, 'pearson': job_pearson}
 
 def selftest(st):
     mod, so = load(HARNESS); calls = []
@@ -219,6 +254,7 @@ def main(tier, seed):
     for typ in (1, 2):
         for n in ((2, 3, 4) if q else (2, 3, 4, 5)):
             for f in range(n): jobs.append((f'corr type={typ} n={n} r0={f}', 'rank', dict(n=n, typ=typ, first=f), 3000))
+    for n, typ in (((1861, 1), (300, 2)) if q else ((1861, 1), (2048, 1), (4099, 1), (300, 2), (1000, 2))): jobs.append((f'rank correlation large n={n} type={typ}', 'rank_large', dict(n=n, typ=typ), 1800))
     for n in ((2, 3, 4) if q else (2, 3, 4, 5, 6)): jobs.append((f'pearson n={n}', 'pearson', dict(n=n), 600))
     jobs.sort(key=lambda j: -(j[2].get('n', 0) + j[2].get('nx', 0) + j[2].get('order', 0)))
     return run_property(PID, tier, HARNESS, jobs, JOBFNS,
